@@ -115,7 +115,18 @@ def make_document(fmt, r, i):
     import yaml
     if fmt in ("json", "json5"):
         v = deep(r, r.choice((5, 20, 40))) if i % 17 == 0 else json_value(r)
-        return json.dumps(v, ensure_ascii=bool(i % 2)).encode()
+        text = json.dumps(v, ensure_ascii=bool(i % 2))
+        if fmt == "json5" and i % 3 == 0:
+            # what only JSON5 allows (a comment, a trailing comma, single quotes): a file that is NOT also plain JSON, so that a
+            # loader with two parsers takes its JSON5 path; with escaped (i odd) and raw (i even) non-ASCII characters
+            text = "// a JSON5 document\n" + text
+            if text.endswith("]") and len(text) > 24 and v:
+                text = text[:-1] + ",]"
+            elif text.endswith("}") and v and isinstance(v, dict):
+                text = text[:-1] + ",}"
+            if i % 6 == 3 and "'" not in text and "\\" not in text:
+                text = text.replace('"', "'")
+        return text.encode()
     if fmt == "csv":
         return csv_text(r)
     if fmt == "yaml":
